@@ -6,6 +6,9 @@ CHECKS = {
  "C01": dict(tech="explicit-state BFS over program recipes x configs x inputs; compiled TEAL executed on reference AVM vs direct evaluator",
              text="Bounded exhaustive exploration: every control-flow recipe up to the node bound, every operator on every leaf tuple, every nesting of order-revealing operators with effectful leaves, every read/effect constructor; each compiled under every listed version/mode/option and executed on the reference AVM for every input of the alphabet, compared with a direct evaluator of the recipe.",
              note="trusts the reference AVM interpreter (self-test + golden corpus) and the direct evaluator; values from boundary alphabets; nothing claimed above the size bound", ref="2/C01"),
+ "C20": dict(tech="explicit-state BFS over control-flow shapes (main/bare/subroutine), degenerate and long programs x configs; outcome class must be TEAL or a PyTeal error; valid shapes must be accepted",
+             text="Bounded exhaustive exploration of every control-flow recipe up to the node bound in three placements (after a store, as first statement, inside a subroutine), hand-listed degenerate shapes, ill-formed programs and long programs, under every listed version/option; any exception other than PyTeal's own error types, and any rejection of a syntactically valid recipe, is a violation.",
+             note="validity of a recipe is decided syntactically; runs with the default recursion limit; sizes above the stated bounds are not claimed", ref="2/C20"),
 }
 NOT_YET = {}
 props = [json.loads(l) for l in open(os.path.join(HERE, "properties.jsonl"))]
